@@ -716,6 +716,13 @@ fn main() {
             muts.push(("time_outside", awire.clone(), if r.chance(1, 2) { t2.saturating_add(fudge2 as u64 + 1) } else { t2.saturating_sub(fudge2 as u64 + 1) }, Some("BadTime")));
             { let mut v = awire.clone(); let last = rd_at + algw - 2; v[last] = if v[last] == b'1' { b'7' } else { b'1' }; muts.push(("algorithm", v, t2, Some("BadKey"))); }
             if owner > 2 { let mut v = awire.clone(); let at = tsig_at + 1; v[at] = if v[at].to_ascii_lowercase() == b'q' { b'z' } else { b'q' }; muts.push(("key_name", v, t2, Some("BadKey"))); }
+            // double faults: the MAC is checked before the time (both wrong -> BadSig), the key before the MAC
+            { let outside = if r.chance(1, 2) { t2.saturating_add(fudge2 as u64 + 1 + r.below(50)) } else { t2.saturating_sub(fudge2 as u64 + 1 + r.below(50)) };
+              if (outside as i128 - t2 as i128).unsigned_abs() as u64 > fudge2 as u64 {
+                muts.push(("mac_and_time", flip(&awire, mac_at + r.below(ks.sign_len() as u64) as usize, r.below(8) as u8), outside, Some("BadSig")));
+                muts.push(("body_and_time", flip(&awire, 2, 1), outside, Some("BadSig")));
+                if owner > 2 { let mut v = flip(&awire, mac_at, 0); let at = tsig_at + 1; v[at] = if v[at].to_ascii_lowercase() == b'q' { b'z' } else { b'q' }; muts.push(("key_and_mac_and_time", v, outside, Some("BadKey"))); }
+              } }
             muts.push(("tsig_not_last", add_rr(&awire, b"\x00\x00\x01\x00\x01\x00\x00\x00\x00\x00\x04\x01\x02\x03\x04"), t2, Some("FormErr")));
             muts.push(("two_tsigs", add_rr(&awire, &awire[tsig_at..].to_vec()), t2, Some("FormErr")));
             muts.push(("missing", ans.clone(), t2, Some("ServerUnsigned")));
@@ -1132,6 +1139,134 @@ fn main() {
         }
     }
 
+    // ---- 3e. MessageTsig::from_message: 0, 1 or 2 TSIG records in every position of the three record sections.
+    //          The TSIG records name an unknown algorithm, so "found" shows as BADKEY, a rejected position as FORMERR,
+    //          no TSIG as Ok(None): the three outcomes of the scan are observable through ServerTransaction::request.
+    {
+        let key = KeySpec { alg: Alg::S256, secret: b"0123456789abcdef".to_vec(), name: b"\x01k\x00".to_vec(), min: None, sign: None };
+        let lib = key.lib().unwrap();
+        let tsig_rr: Vec<u8> = { let mut rd = b"\x04nope\x00".to_vec(); rd.extend_from_slice(&[0, 0, 0x65, 0x53, 0xf1, 0, 1, 44, 0, 16]); rd.extend_from_slice(&[7u8; 16]); rd.extend_from_slice(&[0x12, 0x34, 0, 0, 0, 0]);
+            let mut rr = b"\x01k\x00\x00\xfa\x00\xff\x00\x00\x00\x00".to_vec(); rr.extend_from_slice(&(rd.len() as u16).to_be_bytes()); rr.extend_from_slice(&rd); rr };
+        let a_rr: &[u8] = b"\x00\x00\x01\x00\x01\x00\x00\x00\x05\x00\x04\x01\x02\x03\x04";
+        for an in 0..3usize { for ns in 0..2usize { for ar in 0..4usize {
+            let slots = an + ns + ar;
+            // all subsets of at most two slots
+            let mut subsets: Vec<Vec<usize>> = vec![vec![]];
+            for i in 0..slots { subsets.push(vec![i]); for j in i + 1..slots { subsets.push(vec![i, j]); } }
+            for sub in subsets {
+                idx += 1; if !out.wants(idx) { continue; }
+                let mut m = vec![0x12, 0x34, 0, 0, 0, 1, 0, an as u8, 0, ns as u8, 0, ar as u8];
+                m.extend_from_slice(b"\x03www\x00\x00\x01\x00\x01");
+                for i in 0..slots { if sub.contains(&i) { m.extend_from_slice(&tsig_rr); } else { m.extend_from_slice(a_rr); } }
+                let case = format!("fm {}", hex(&m));
+                out.begin(&case);
+                let res = run_server(&lib, &m, 1_700_000_000);
+                let obs = match &res { Srv::None => "None".to_string(), Srv::Err(w) if w == "BADKEY" => "Found".into(), Srv::Err(w) => w.clone(), o => o.obs() };
+                out.case(&case, &obs, true, "fm");
+                // RFC 8945 5.2: exactly one TSIG, as the last record of the additional section; anything else with a TSIG is FORMERR
+                let want = if sub.is_empty() { "None" } else if sub.len() == 1 && ar > 0 && sub[0] == slots - 1 { "Found" } else { "FORMERR" };
+                let outside = sub.iter().any(|&i| i < an + ns);
+                if outside && obs != want {
+                    out.check_c(false, "tsig_outside_additional_not_formerr", &case, &format!("TSIG record(s) at slots {:?} of an={} ns={} ar={}: RFC 8945 5.2 assigns FORMERR, got {}", sub, an, ns, ar, obs));
+                } else {
+                    out.check_c(obs == want, "tsig_position_rule", &case, &format!("TSIG record(s) at slots {:?} of an={} ns={} ar={}: want {} got {}", sub, an, ns, ar, want, obs));
+                }
+            }
+        }}}
+    }
+
+    // ---- 3f. the server TSIG middleware signing a stream of responses (XFR style: BeginTransaction feedback,
+    //          ServerSequence inside); the stream is verified by a ClientSequence and compared with the reference
+    {
+        use domain::net::server::message::{Request, TransportSpecificContext, NonUdpTransportContext};
+        use domain::net::server::middleware::tsig::TsigMiddlewareSvc;
+        use domain::net::server::service::{CallResult, Service, ServiceFeedback, ServiceResult};
+        use domain::net::server::util::mk_builder_for_target;
+        use futures_util::StreamExt;
+        #[derive(Clone)]
+        struct Multi { n: usize }
+        impl Service<Vec<u8>, Option<Key>> for Multi {
+            type Target = Vec<u8>;
+            type Stream = futures_util::stream::Iter<std::vec::IntoIter<ServiceResult<Vec<u8>>>>;
+            type Future = std::future::Ready<Self::Stream>;
+            fn call(&self, req: Request<Vec<u8>, Option<Key>>) -> Self::Future {
+                let mut v = vec![];
+                for i in 0..self.n {
+                    let b = mk_builder_for_target::<Vec<u8>>();
+                    let mut a = b.start_answer(req.message(), Rcode::NOERROR).unwrap();
+                    for j in 0..(i % 3) { a.push((Name::<Vec<u8>>::root_vec(), Class::IN, Ttl::from_secs(1), A::from_octets(10, 1, i as u8, j as u8))).unwrap(); }
+                    let mut cr = CallResult::new(a.additional());
+                    if i == 0 { cr = cr.with_feedback(ServiceFeedback::BeginTransaction); }
+                    else if i + 1 == self.n { cr = cr.with_feedback(ServiceFeedback::EndTransaction); }
+                    v.push(Ok(cr));
+                }
+                std::future::ready(futures_util::stream::iter(v))
+            }
+        }
+        let rt = tokio::runtime::Builder::new_current_thread().enable_all().build().unwrap();
+        let n = if thorough { 100 } else { 6 } * scale;
+        for it in 0..n {
+            let mut r = r.fork();
+            idx += 1; if !out.wants(idx) { continue; }
+            let alg = Alg::all()[it % 4];
+            let lo = std::cmp::max(10, alg.native() / 2);
+            let sign = if it % 2 == 0 { Some(r.range(lo as u64, alg.native() as u64) as usize) } else { None };
+            let sl = r.range(8, 40) as usize;
+            let k = KeySpec { alg, secret: r.bytes(sl), name: b"\x03xfr\x03Key\x00".to_vec(), min: Some(lo), sign };
+            let Ok(key) = k.lib() else { continue };
+            let mut qb = MessageBuilder::new_vec();
+            qb.header_mut().set_id(r.u16());
+            let mut qq = qb.question();
+            qq.push((name_from_wire(&gen_name_wire(&mut r)), Rtype::AXFR)).unwrap();
+            let mut ab = qq.additional();
+            let pre = ab.as_slice().to_vec();
+            let started = std::time::Instant::now();
+            let Ok(mut cs) = ClientSequence::request(key.clone(), &mut ab, Time48::now()) else { continue };
+            let wire = ab.finish();
+            let nresp = r.range(2, 6) as usize;
+            let case = format!("middleware_stream n={} {} {}", nresp, k.words(), hex(&wire));
+            out.begin(&case);
+            let svc = TsigMiddlewareSvc::<Vec<u8>, _, Key, ()>::new(Multi { n: nresp }, key.clone());
+            let request = Request::new("127.0.0.1:53".parse().unwrap(), tokio::time::Instant::now(), Message::from_octets(wire.clone()).unwrap(),
+                TransportSpecificContext::NonUdp(NonUdpTransportContext::new(None)), ());
+            let resps: Result<Vec<Vec<u8>>, String> = catch_mut(|| rt.block_on(async {
+                let mut stream = svc.call(request).await;
+                let mut v = vec![];
+                while let Some(item) = stream.next().await { if let Ok(cr) = item { if let (Some(b), _) = cr.into_inner() { v.push(b.finish().as_dgram_slice().to_vec()); } } }
+                v
+            }));
+            out.oracle_case(&case, true, "middleware_stream");
+            if started.elapsed().as_secs() > 100 { out.count("middleware_slow_skipped"); continue; }
+            let resps = match resps { Ok(v) => v, Err(p) => { out.check_c(false, "middleware_panic", &case, &p); continue } };
+            out.check_c(resps.len() == nresp, "middleware_stream_incomplete", &case, &format!("{} of {} responses", resps.len(), nresp));
+            // reference + model: prior MAC as sent, first message full variables, later ones timers only
+            let rr_len = k.name.len() + 10 + k.alg.name_wire().len() + 16 + k.sign_len();
+            let tpos_of = |w: &[u8]| w.len() - rr_len + k.name.len() + 10 + k.alg.name_wire().len();
+            let time_of = |w: &[u8]| { let p = tpos_of(w); let mut tb = [0u8; 8]; tb[2..].copy_from_slice(&w[p..p + 6]); u64::from_be_bytes(tb) };
+            let treq = time_of(&wire);
+            let mut scase = format!("sseq {} {} {} 300", k.words(), hex(&wire), treq);
+            let mut prior = wire[wire.len() - 6 - k.sign_len()..wire.len() - 6].to_vec();
+            let mut ok_shape = true;
+            for (i, w) in resps.iter().enumerate() {
+                if w.len() < rr_len + 12 { ok_shape = false; break; }
+                let mut p = w[..w.len() - rr_len].to_vec();
+                let ar = u16::from_be_bytes([p[10], p[11]]).wrapping_sub(1); p[10..12].copy_from_slice(&ar.to_be_bytes());
+                let ti = time_of(w);
+                scase.push_str(&format!(" {} {}", hex(&p), ti));
+                let (mac, want) = rfc_sign(&consts, &k, &with_len(&prior), &p, ti, 300, 0, &[], i > 0);
+                out.check_c(*w == want, "middleware_stream_mac_rfc8945", &case, &format!("response {}: {} reference {}", i + 1, hex(w), hex(&want)));
+                prior = mac;
+                let mut m = Message::from_octets(w.clone()).unwrap();
+                let res = cs.answer(&mut m, Time48::now());
+                out.check_c(res.is_ok(), "middleware_stream_rejected", &case, &format!("response {}: {:?}", i + 1, res));
+            }
+            if !ok_shape { out.check_c(false, "middleware_stream_mac_rfc8945", &case, "a response of the stream carries no TSIG"); continue; }
+            out.check_c(cs.done().is_ok(), "middleware_stream_rejected", &case, "done()");
+            out.case(&scase, &resps.iter().map(|w| hex(w)).collect::<Vec<_>>().join(","), true, "sseq_middleware");
+            let _ = pre;
+        }
+    }
+
     // ---- 4. sequences
     let n_seq = if thorough { 300 } else { 14 } * scale;
     for it in 0..n_seq {
@@ -1224,5 +1359,62 @@ fn main() {
             out.case(&ccase, &format!("{} done={}", obs.join(","), match d { Ok(()) => "ok".to_string(), Err(e) => format!("Err {}", verr(&e)) }), true, if long { "cseq_long" } else { "cseq_ref" });
         }
     }
+    // ---- 4c. double faults on the sequence path and on the server: the MAC is judged before the time
+    {
+        let n = if thorough { 200 } else { 8 } * scale;
+        for it in 0..n {
+            let mut r = r.fork();
+            idx += 1; if !out.wants(idx) { continue; }
+            let mut k = gen_key(&mut r); k.min = Some(std::cmp::max(10, k.alg.native() / 2)); if it % 2 == 0 { k.sign = None; }
+            let Ok(kl) = k.lib() else { continue };
+            let t = 1_700_000_000 + r.below(100000);
+            let id = r.u16();
+            let req = gen_message(&mut r, id, false).as_slice().to_vec();
+            let mut b = builder_from(&req);
+            if b.as_slice() != &req[..] { out.count("skipped_rebuild"); continue; }
+            let Ok(cs0) = ClientSequence::request(kl.clone(), &mut b, Time48::from_u64(t)) else { continue };
+            let wire = b.finish();
+            let outside = if r.chance(1, 2) { t + 301 + r.below(100) } else { t - 301 - r.below(100) };
+            // server: wrong MAC and outside the window -> BADSIG, not BADTIME
+            {
+                let mac_at = wire.len() - 6 - k.sign_len();
+                let mut w = wire.clone(); w[mac_at + r.below(k.sign_len() as u64) as usize] ^= 1 << r.below(8);
+                let case = format!("sreq {} {} {}", k.words(), hex(&w), outside);
+                out.begin(&case);
+                let res = run_server(&kl, &w, outside);
+                out.case(&case, &res.obs(), true, "sreq_mac_and_time");
+                out.check_c(matches!(&res, Srv::Err(wd) if wd == "BADSIG"), "server_double_fault_order", &case, &format!("wrong MAC and time outside the window: want BADSIG, got {}", res.obs()));
+            }
+            let mut rm = Message::from_octets(wire.clone()).unwrap();
+            let Ok(Some(mut ss)) = ServerSequence::request(&&kl, &mut rm, Time48::from_u64(t)) else { continue };
+            let mut answers = vec![];
+            for _ in 0..3 { let mut ab = gen_message(&mut r, id, true); if ss.answer(&mut ab, Time48::from_u64(t)).is_err() { break; } answers.push(ab.finish()); }
+            if answers.len() != 3 { continue; }
+            let flipmac = |w: &[u8], r: &mut Rng| { let mut v = w.to_vec(); let at = v.len() - 6 - k.sign_len() + r.below(k.sign_len() as u64) as usize; v[at] ^= 0x04; v };
+            // (i) first answer: wrong MAC + outside -> BadSig
+            // (ii) first ok, second wrong MAC + outside -> BadSig
+            // (iii) first ok, second honest but outside -> BadTime (the MAC verified)
+            let scripts: Vec<Vec<(Vec<u8>, u64, &str)>> = vec![
+                vec![(flipmac(&answers[0], &mut r), outside, "Err BadSig")],
+                vec![(answers[0].clone(), t, "ok"), (flipmac(&answers[1], &mut r), outside, "Err BadSig")],
+                vec![(answers[0].clone(), t, "ok"), (answers[1].clone(), outside, "Err BadTime")],
+            ];
+            for sc in scripts {
+                let mut cs = cs0.clone();
+                let mut ccase = format!("cseqt {} {} {} 300", k.words(), hex(&req), t);
+                let mut obs = vec![];
+                for (w, at, want) in &sc {
+                    ccase.push_str(&format!(" {} {}", hex(w), at));
+                    let mut m = Message::from_octets(w.clone()).unwrap();
+                    let res = cs.answer(&mut m, Time48::from_u64(*at));
+                    let o = match &res { Ok(()) => "ok".to_string(), Err(e) => format!("Err {}", verr(e)) };
+                    out.check_c(&o == want, "sequence_double_fault_order", &ccase, &format!("want {} got {}", want, o));
+                    obs.push(o);
+                }
+                out.case(&ccase, &obs.join(","), true, "cseqt");
+            }
+        }
+    }
+
     out.finish(&[]);
 }
